@@ -139,3 +139,29 @@ Theorem C18_int_token_printed :
   forall n : N, IntLitSyntax.int_token false (dec_of_N n) = Some (KInt (Z.of_N n)).
 Proof. exact IntLitSyntax.int_token_printed. Qed.
 Print Assumptions C18_int_token_printed.
+
+(** The two readers of a literal text ([base10_parse::<usize>()] for counts, [::<isize>()] for
+    values) never disagree about the number it denotes (IntLitAgree.v). *)
+From PyxisModel Require IntLitAgree.
+
+Theorem C18_literal_readers_agree : forall (s : string) (n : N) (z : Z),
+    IntLit.read_usize false s = Some n -> IntLit.read_isize false s = Some z -> z = Z.of_N n.
+Proof. exact IntLitAgree.readers_agree. Qed.
+Print Assumptions C18_literal_readers_agree.
+
+Theorem C18_isize_literal_is_usize_literal : forall (s : string) (z : Z),
+    IntLit.read_isize false s = Some z -> IntLit.read_usize false s = Some (Z.to_N z).
+Proof. exact IntLitAgree.isize_reading_is_usize_reading. Qed.
+Print Assumptions C18_isize_literal_is_usize_literal.
+
+Theorem C18_usize_literal_is_isize_literal_iff : forall (s : string) (n : N),
+    IntLit.read_usize false s = Some n ->
+    (IntLit.read_isize false s = Some (Z.of_N n) <-> (Z.of_N n <= isize_max)%Z) /\
+    (IntLit.read_isize false s = None <-> (isize_max < Z.of_N n)%Z).
+Proof. exact IntLitAgree.usize_reading_is_isize_reading_iff. Qed.
+Print Assumptions C18_usize_literal_is_isize_literal_iff.
+
+Theorem C18_negated_literal_is_opposite : forall (s : string) (z : Z),
+    IntLit.read_isize false s = Some z -> IntLit.read_isize true s = Some (- z)%Z.
+Proof. exact IntLitAgree.negated_isize_is_opposite. Qed.
+Print Assumptions C18_negated_literal_is_opposite.
